@@ -14,9 +14,9 @@ from vlib import *
 from pegrun import *
 import gencrate
 
-SLICES_QUICK = [("ws", 4, 2, 3, 40), ("pushws", 1, 1, 5, 40), ("shadow", 2, 3, 3, 25), ("core", 2, 3, 3, 15), ("stack", 2, 3, 4, 15), ("builtin", 2, 3, 3, 15),
+SLICES_QUICK = [("ws", 4, 2, 3, 40), ("wsov", 2, 3, 4, 30), ("pushws", 1, 1, 5, 40), ("shadow", 2, 3, 3, 25), ("core", 2, 3, 3, 15), ("stack", 2, 3, 4, 15), ("builtin", 2, 3, 3, 15),
                 ("counted", 2, 3, 4, 10), ("skip", 4, 3, 3, 12), ("factor", 2, 1, 4, 12), ("restore", 4, 1, 4, 12)]
-SLICES_THOROUGH = [("ws", 8, 3, 3, 300), ("pushws", 2, 1, 5, 120), ("shadow", 4, 3, 3, 120), ("core", 8, 4, 4, 150), ("stack", 8, 4, 4, 150), ("builtin", 8, 4, 3, 120),
+SLICES_THOROUGH = [("ws", 8, 3, 3, 300), ("wsov", 4, 3, 4, 150), ("pushws", 2, 1, 5, 120), ("shadow", 4, 3, 3, 120), ("core", 8, 4, 4, 150), ("stack", 8, 4, 4, 150), ("builtin", 8, 4, 3, 120),
                    ("counted", 4, 4, 4, 100), ("skip", 8, 4, 4, 120), ("factor", 4, 1, 5, 120), ("restore", 8, 1, 5, 120)]
 
 
@@ -43,6 +43,12 @@ def run(ctx):
     s = run_json([vh, "grammar-list", "--seed", str(ctx.seed), "--grammars", str(nrand), "--gi0", str(gi), "--out", lf])
     gi = s["next_gi"]
     lists.append(lf)
+    # every advertised Unicode property name as a rule, on the first / middle / last member of every property and
+    # their neighbours (C16 checks the tables themselves; here only that the two back-ends resolve every name alike)
+    lf = os.path.join(ctx.work, "list_unicode.ndjson")
+    s = run_json([vh, "grammar-list", "--unicode", "--gi0", str(gi), "--out", lf])
+    gi = s["next_gi"]
+    lists.append(lf)
     allrecs = []
     for lf in lists:
         allrecs += read_ndjson(lf)
@@ -64,7 +70,15 @@ def run(ctx):
         for k in tot:
             tot[k] += s[k]
         # split for parallel TLC
-        lines = open(out).read().splitlines()
+        lines = []
+        for line in open(out).read().splitlines():
+            rec = json.loads(line)
+            if len(rec["cases"]) <= 4000:
+                lines.append(line)
+            else:       # a grammar with very many cases (the Unicode-name grammar) becomes several records
+                cs = rec["cases"]
+                for i in range(0, len(cs), 4000):
+                    lines.append(json.dumps(dict(rec, cases=cs[i:i + 4000])))
         os.remove(out)
         parts = 8
         for p in range(parts):
